@@ -28,6 +28,8 @@ LINKS = {
   19: '2 44100 30 6000 20',
   20: '2 44100 30 20000 21 trim=96,2',     # first page announces 32 samples but decodes to 128: begin-trimmed
   21: '1 22050 40 7000 22 trim=200,3',
+  22: '1 44100 30 1501 23',                 # odd length, all audio on one page
+  23: '2 32000 20 2999 24',
 }
 FILES = {
   'A': '0',
@@ -60,6 +62,8 @@ FILES = {
   'ZD': '1 6:ppp=10,1:pad=10=130019:s=77 2',
   'ZE': '6:ppp=4,1,255:pad=4=150000',
   'ZF': '0:ppp=3:pad=9=200000:mux=2',
+  'ZG': '22',                                          # half rate: ceil(N/2) on a link whose first audio page is also its last
+  'ZH': '6 23',
   'Y': '6:s=-1 1:s=2147483647 2:s=-2147483648 6:s=0',     # extreme serial numbers (0xFFFFFFFF on a non-final link)
 }
 
